@@ -377,6 +377,12 @@ def c16_g(ctx):
             return Rat.sym('A')          # mean over chains of the lag-t autocovariance
         if t[0] == 'ifexp':
             return None
+        if t[0] in ('attr', 'call', 'item') and not (
+                t[0] == 'call' and t[1][0] == 'global' and
+                t[1][1] in ('numpy.sqrt', 'numpy.exp', 'numpy.log', 'numpy.square')):
+            # a quantity foreign to the textbook formula: an opaque symbol (the identity then
+            # fails unless it cancels)
+            return Rat.sym('?' + show(t)[:40])
         return None
     temps = [s_ for s_ in own_nodes(es.node) if isinstance(s_, ast.Assign) and
              isinstance(s_.targets[0], ast.Name) and enclosing_loop(s_) is not None and
